@@ -24,6 +24,8 @@ META = {
 def harnesses():
     hs = [H("c07_status_tables", "status_tables", 40, "quick",
             "for EVERY u16: try_from accepts exactly the 39 modelled codes; u16::from and try_from are mutually inverse; the phrase is the registered one")]
+    hs.append(H("c07_status_codes", "status_codes", 4, "quick", "for EVERY u16: accept set == the 39 modelled codes and u16::from(try_from(c)) == c"))
+    hs.append(H("c07_status_class", "status_class", 44, "quick", "for EVERY u16: accepted codes are 100..599 and their reason phrases are 2..40 printable ASCII bytes (no CR/LF that could break the status line)"))
     for h in hs:
         h.module = MODULE
     return hs
